@@ -118,3 +118,16 @@ CLAIMED['C05'] = ('model_checking',
     '(grammar + denotation) only, as a pure function enumerated case by case; magnitudes are compared by the harness with exact fractions '
     'from the spec\'s unit table (they exceed 32-bit TLC integers).',
     'TLA+ spec (reader machine vs written call; numeral grammar with denotations) enumerated by TLC; every case replayed into the real readers')
+CLAIMED['C08'] = ('model_checking',
+    'Counters.tla: TLC explores every history (exhaustively up to 3 events quick / 4 thorough, by simulation to 10 / 14 events) of numbered '
+    'constructs -- sections of four levels starred or not, equations, eqnarray rows with \\nonumber patterns, figure and table captions, '
+    'theorems with own / shared / within-section counters, nested lists and items, \\appendix, \\setcounter, \\addtocounter, \\stepcounter -- '
+    'for article and book and several numbering depths, and checks the machine (plasTeX\'s counters, reset hierarchy, per-construct stepping '
+    'and capture, List.invoke\'s explicit resets) against LaTeX\'s rules (NumbersAreLaTeX: printed numbers equal the rule layer\'s; '
+    'TransitiveReset).  Every emitted history is concretised as a LaTeX document, parsed by the real engine, and the printed number of every '
+    'numbered object in document order compared.  NumberFormats.tla: TLC checks Roman numerals 1..4999 against the subtractive grammar and '
+    'tabulates them; the table is compared with Counter.Roman/roman/Alph/alph/arabic for every value.',
+    'DESIGN.md#c08',
+    'Trusted: TLC, the transcription of LaTeX\'s counter rules and class formats (article, book) in Counters.tla, the concretiser/projection in '
+    'harness/drivers/c08.py. Page numbers, \\numberwithin and language formats out of scope.',
+    TECH)
